@@ -120,6 +120,7 @@ type conn struct {
 	client  interface{}
 	bytesOK bool
 	notes   []string
+	srvFlushes int
 }
 
 func (c *conn) emit(e Event) { c.events = append(c.events, e) }
@@ -128,6 +129,18 @@ func (c *conn) emit(e Event) { c.events = append(c.events, e) }
 type hookTransport struct {
 	*thrift.TMemoryBuffer
 	c *conn
+}
+
+// flushCount is the server's output transport: it counts Flush calls.  On a transport that buffers until Flush
+// (framed, buffered, sockets) a message that is written but not flushed never leaves the server.
+type flushCount struct {
+	*thrift.TMemoryBuffer
+	c *conn
+}
+
+func (t *flushCount) Flush(ctx context.Context) error {
+	t.c.srvFlushes++
+	return t.TMemoryBuffer.Flush(ctx)
 }
 
 func (t *hookTransport) Flush(ctx context.Context) error {
@@ -164,6 +177,7 @@ func (c *conn) pump() {
 		before := c.c2s.Len()
 		s2cBefore := c.s2c.Len()
 		c.hIdx = -1
+		f0 := c.srvFlushes
 		at := len(c.events)
 		var ok bool
 		var perr error
@@ -180,7 +194,7 @@ func (c *conn) pump() {
 			if s2cBefore <= len(all) {
 				c.checkBytes("s2c", all[s2cBefore:], toks)
 			}
-			c.emit(Event{"e": "sw", "toks": toks})
+			c.emit(Event{"e": "sw", "toks": toks, "flushed": c.srvFlushes > f0})
 		} else if c.s2c.Len() != s2cBefore {
 			c.bytesOK = false
 			c.notes = append(c.notes, "s2c: bytes written without protocol calls")
@@ -499,7 +513,7 @@ func opRPC(sc *drv.Schema, s *drv.Scenario, r *drv.Result) error {
 	c.cliOut = rec.New(thrift.NewTBinaryProtocol(&hookTransport{c.c2s, c}, true, true))
 	c.cliIn = rec.New(thrift.NewTBinaryProtocol(c.s2c, true, true))
 	c.srvIn = rec.New(thrift.NewTBinaryProtocol(c.c2s, true, true))
-	c.srvOut = rec.New(thrift.NewTBinaryProtocol(c.s2c, true, true))
+	c.srvOut = rec.New(thrift.NewTBinaryProtocol(&flushCount{c.s2c, c}, true, true))
 	c.client = svc.NewClient(c.cliIn, c.cliOut)
 	c.proc = svc.NewProcessor(&Handler{c: c})
 	for k := range pl.Calls {
